@@ -63,6 +63,18 @@ def run(tier):
         second = [rnd.choice(allc) for _ in range(rnd.randrange(1, 20))] if k % 3 == 0 else None
         prior = (rnd.choice([2, 3, 5, 8]), [rnd.choice(allc) for _ in range(rnd.randrange(2, 12))]) if k % 4 == 1 else None
         add(c, max(0, start), prog, "random", second, use_file=(k % 7 == 0), prior_fail=prior)
+    # many lines / large counts in ONE call: 300, 40000 and 70000 three-byte instructions with c = 2 (each of them crosses at least one
+    # boundary), and long programs with c = 5 and 7 (counts beyond 255 / 32767 / 65535)
+    three = next((p for p in allc if len(p[1]) == 6), None)
+    if three:
+        for nl, c in ((300, 2), (40000, 2), (70000, 2), (70000, 5), (33000, 7)) if full else ((300, 2), (70000, 2), (33000, 7)):
+            add(c, rnd.choice([0, 1]), [three] * nl, "random", internal=True)
+    # chunk sizes from the far ends of the int range, and powers of two above 2^16 with start offsets around them
+    for c in (-2, -2147483648, 2147483647, 131072, 1048576):
+        for k in range(4):
+            prog = [rnd.choice(allc) for _ in range(rnd.randrange(1, 12))]
+            start = 0 if c < 0 or c > 2**21 else max(0, c - rnd.randrange(0, 12))
+            add(c, start, prog, "random", internal=(k % 2 == 0))
     # library-managed buffers (which GROW during the call) with chunk sizes around and above their size (6020 bytes at first, then
     # +6000 per growth): the crossing instruction lies at an offset the mapping did not cover when the call began
     big = [6000, 6019, 6020, 6021, 8192, 12020, 12040, 65536, 100000]
